@@ -1,4 +1,6 @@
 import ApolloModel.Proofs.SchemaValidation
+import ApolloModel.Proofs.DirectiveSearch
+import ApolloModel.Proofs.Implementation
 /-
 C14 — Schema validation agrees with the specification.
 
@@ -115,9 +117,8 @@ theorem directive_search_sound (s : DSchema) (limit d : Nat)
     rw [this] at ha
     exact ⟨args, a, hd, ha, walk_sound s limit _ [d] [] (.arg a) d rfl hwx⟩
 
-/-- The full statement for the directive rule (completeness under the limit); not proved — the search
-    prunes on two stacks, the completeness argument is left to the `c14.dircycle` correspondence and
-    the independent oracle. -/
+/-- The full statement for the directive rule (completeness under the limit).  Proved below as
+    `directive_search_complete_holds` (the search prunes on two stacks; see Proofs/DirectiveSearch.lean). -/
 def directive_search_complete : Prop :=
   ∀ (s : DSchema) (limit d : Nat), DirectiveSelfReference s d → checkDirective s limit d ≠ .ok
 
@@ -146,5 +147,99 @@ example : validateRoots (some (.object 0)) (some (.object 0)) none = [.duplicate
 example : validateRoots (some (.object 0)) (some (.object 1)) none = [] := by decide
 -- `directive @d(a: T)`, `input T { f: Int @d }`
 example : checkDirective ⟨[[⟨[], some 0⟩]], [⟨.input, [], [], [⟨[0], none⟩]⟩]⟩ 32 0 = .recursed := by decide
+
+/-! ### growth: the directive rule in full -/
+
+/-- Completeness of the directive search under the depth limit: a directive whose definition reaches a
+    use of itself is never accepted (`recursed`, or `limit` when the search gave up first).  This is the
+    statement `directive_search_complete`, now proved (loop removal on the item graph + induction along
+    a simple path with both stacks generalised). -/
+theorem directive_search_complete_holds : directive_search_complete :=
+  fun s limit d h => checkDirective_complete s limit d h
+
+/-- The recursion fuel of the directive model is never the reason for an answer. -/
+theorem directive_search_fuel_sufficient (s : DSchema) (limit d : Nat) :
+    checkDirective s limit d ≠ .outOfFuel := by
+  intro h
+  unfold checkDirective at h
+  obtain ⟨y, hy, hwy⟩ := firstErr_err (by decide) h
+  obtain ⟨a, _, rfl⟩ := List.mem_map.mp hy
+  refine walk_fuel s limit _ [d] [] (.arg a) ?_ hwy
+  simp only [need, isArg, List.length_singleton, List.length_nil]
+  omega
+
+/-- With at most `limit` directive definitions and at most `limit` types the limit cannot be hit. -/
+theorem directive_search_no_limit (s : DSchema) (limit d : Nat) (hd : s.dirs.length ≤ limit)
+    (ht : s.types.length ≤ limit) (hdr : d < s.dirs.length) : checkDirective s limit d ≠ .limit := by
+  intro h
+  unfold checkDirective at h
+  obtain ⟨y, _, hwy⟩ := firstErr_err (by decide) h
+  exact walk_no_limit s limit hd ht _ [d] [] y (by simp)
+    (fun e he => by have : e = d := by simpa using he
+                    exact this ▸ hdr) (by simp) (by simp) hwy
+
+/-- The directive rule: validation reports no directive definition iff no directive definition
+    references itself directly or indirectly (schemas with at most `limit` = 32 directive definitions
+    and types). -/
+theorem directive_rule_iff_spec (s : DSchema) (limit : Nat) (hd : s.dirs.length ≤ limit)
+    (ht : s.types.length ≤ limit) :
+    failingDirectives s limit = [] ↔ ∀ d, ¬ DirectiveSelfReference s d := by
+  unfold failingDirectives
+  rw [List.filter_eq_nil_iff]
+  constructor
+  · intro h d hself
+    have hdr : d < s.dirs.length := by
+      obtain ⟨args, _, hargs, _, _⟩ := hself
+      by_cases hl : d < s.dirs.length
+      · exact hl
+      · rw [List.getElem?_eq_none (Nat.le_of_not_lt hl)] at hargs; cases hargs
+    have := h d (List.mem_range.mpr hdr)
+    exact checkDirective_complete s limit d hself (by simpa using this)
+  · intro h d hdr
+    have hdr' := List.mem_range.mp hdr
+    have h1 := directive_search_fuel_sufficient s limit d
+    have h2 := directive_search_no_limit s limit d hd ht hdr'
+    have h3 : checkDirective s limit d ≠ .recursed := fun hc => h d (directive_search_sound s limit d hc)
+    cases hc : checkDirective s limit d <;> simp_all
+
+/-- Beyond the limit the verdict can only err on the side of rejecting. -/
+theorem directive_rule_accept_sound (s : DSchema) (limit : Nat) (h : failingDirectives s limit = []) :
+    ∀ d, ¬ DirectiveSelfReference s d := by
+  intro d hself
+  unfold failingDirectives at h
+  rw [List.filter_eq_nil_iff] at h
+  have hdr : d < s.dirs.length := by
+    obtain ⟨args, _, hargs, _, _⟩ := hself
+    by_cases hl : d < s.dirs.length
+    · exact hl
+    · rw [List.getElem?_eq_none (Nat.le_of_not_lt hl)] at hargs; cases hargs
+  have := h d (List.mem_range.mpr hdr)
+  exact checkDirective_complete s limit d hself (by simpa using this)
+
+/-! ### growth: IsValidImplementation for a whole type, and kinds of referenced types -/
+
+open Apollo.Implementation Apollo.Implementation.Spec Apollo.SchemaInvariants in
+/-- The implementation rule (`MissingInterfaceField` loop + `validate_implementation_field_types` +
+    `validate_implementation_field_arguments`): validation pushes no diagnostic for a type iff
+    IsValidImplementation holds against every declared interface — a field of the same name for every
+    interface field, every interface argument present with the same type, additional arguments optional,
+    and a covariant return type (IsValidImplementationFieldType, any subtype relation). -/
+theorem implementation_rule_iff_spec (sub : Name → Name → Bool) (getIface : Nat → Option (List FieldM))
+    (tfields : List FieldM) (declared : List Nat) :
+    implDiags sub getIface tfields declared = [] ↔
+      ∀ i ∈ declared, ∀ ifields, getIface i = some ifields → ValidImplementation sub tfields ifields :=
+  implDiags_nil_iff sub getIface tfields declared
+
+open Apollo.Implementation Apollo.Implementation.Spec in
+/-- The kind checks on type references: no diagnostic iff every field type is an output type, every
+    argument / input-field type an input type and every union member an object type (a referenced
+    built-in scalar that is missing from the map counts as the scalar validation will insert). -/
+theorem reference_kinds_rule_iff_spec (kindOf : String → Option Kind) (t : TypeRefs) :
+    typeRefDiags kindOf t = [] ↔ RefsRightKind kindOf t :=
+  typeRefDiags_nil_iff kindOf t
+
+open Apollo.Implementation Apollo.SchemaInvariants in
+example : (implDiags (fun a c => a == "Node" && c == "A") (fun _ => some [⟨"f", .list (.named "Node"), [⟨"a", "Int", false⟩]⟩])
+    [⟨"f", .nonNullList (.nonNullNamed "A"), [⟨"a", "Int", false⟩, ⟨"c", "Int!", true⟩]⟩] [0]).length = 1 := by decide
 
 end Apollo.C14
